@@ -38,7 +38,7 @@ def run_jobs(jobs):
 
 def run(ctx):
     q = ctx.quick; s = ctx.seed
-    jobs = [{"args": {"seed": s * 1000 + k, "n": 10 if q else 40, "R": [32, 40, 56][k % 3]}, "out": ctx.path("z_%02d.ndjson" % k)} for k in range(16 if q else 32)]
+    jobs = [{"args": {"seed": s * 1000 + k, "n": 25 if q else 120, "R": [32, 40, 56][k % 3]}, "out": ctx.path("z_%02d.ndjson" % k)} for k in range(16 if q else 32)]
     run_jobs(jobs)
     res = core.validate_traces("ZTrace", "ZTrace.cfg", [j["out"] for j in jobs], timeout=2400)
     byf = {j["out"]: j for j in jobs}
